@@ -338,7 +338,8 @@ func (m *monitor) scanCache() {
 }
 
 type monitor struct {
-	ctx   *parsley.Context
+	kidArrays map[*parsley.Node]parsley.Node // first slot of a built node's children array -> that node
+	ctx       *parsley.Context
 	cache map[*parsley.Result]cacheSnap
 	text []byte      // the parsed file's (normalised) content and the global position of its first byte
 	base parsley.Pos
@@ -368,7 +369,7 @@ type monitor struct {
 const c07Known = "C07-rtrim-readerpos"
 
 func newMonitor() *monitor {
-	return &monitor{nodes: map[interface{}]*shallow{}, lists: map[listKey][]kidKey{}, knownOpen: openFindings[c07Known], reused: map[interface{}]string{}, cache: map[*parsley.Result]cacheSnap{}}
+	return &monitor{nodes: map[interface{}]*shallow{}, lists: map[listKey][]kidKey{}, knownOpen: openFindings[c07Known], reused: map[interface{}]string{}, cache: map[*parsley.Result]cacheSnap{}, kidArrays: map[*parsley.Node]parsley.Node{}}
 }
 
 func isPtrNode(n parsley.Node) bool {
@@ -644,6 +645,44 @@ func (r recP) Parse(ctx *parsley.Context, lrc data.IntMap, pos parsley.Pos) (par
 			if isPtrNode(t) {
 				if _, seen := m.nodes[t]; seen {
 					m.reused[t] = r.label
+					return
+				}
+			}
+			// a node this sequence has just built: its children are the results of one path
+			// through the operands, in order (each starts where the previous one ended or
+			// later), in an array of its own. A node whose child array is still the
+			// sequence's scratch buffer reads like another path by now.
+			nt, ok := t.(parsley.NonTerminalNode)
+			if !ok || !isPtrNode(t) || m.viol != nil {
+				return
+			}
+			kids := nt.Children()
+			if len(kids) > 0 {
+				if other, dup := m.kidArrays[&kids[0]]; dup && other != t {
+					m.viol = &c07Violation{class: "frozen:children", culprit: r.label, field: "children",
+						detail: fmt.Sprintf("two result nodes built by parser %q (grammar node %d) share one children array (%d..%d and %d..%d): the array belongs to neither of them", r.label, r.idx, other.Pos(), other.ReaderPos(), t.Pos(), t.ReaderPos())}
+					return
+				}
+				m.kidArrays[&kids[0]] = t
+			}
+			if m.known > 0 {
+				return // the open RightTrim finding may have moved a child's end after the fact
+			}
+			for i := 0; i+1 < len(kids); i++ {
+				a, b := kids[i], kids[i+1]
+				if a == nil || b == nil {
+					continue
+				}
+				if _, isList := a.(ast.NodeList); isList {
+					continue
+				}
+				if _, isList := b.(ast.NodeList); isList {
+					continue
+				}
+				if b.Pos() < a.ReaderPos() && b.ReaderPos() < a.ReaderPos() {
+					m.viol = &c07Violation{class: "frozen:children", culprit: r.label, field: "children",
+						detail: fmt.Sprintf("a result node built by parser %q (grammar node %d, %d..%d) has children that are not one path through its operands: child %d ends at %d, child %d covers %d..%d - the child array was rewritten between the result handler's return and the parser's", r.label, r.idx, t.Pos(), t.ReaderPos(), i, a.ReaderPos(), i+1, b.Pos(), b.ReaderPos())}
+					return
 				}
 			}
 		}
